@@ -3,10 +3,10 @@ CONSTANTS
   Kind = "l1info"
   Fixed = TRUE
   H = 2
-  MaxBlocks = 3
-  MaxEvents = 3
+  MaxBlocks = 4
+  MaxEvents = 2
   MaxLeaves = 4
-  MaxOps = 4
+  MaxOps = 5
   Faults = {}
   AllowGap = FALSE
   Dups = FALSE
